@@ -333,5 +333,108 @@ class CliNestedInputs(Stream):
                     yield c
 
 
+class ExtraOptionWithSolution(Stream):
+    """`--extra E` together with a prior solution: a source project is compiled with `--extra E`, the output is kept; the
+    project's requirements change (it no longer asks `lib[E]`, or starts to) and it is compiled again with the same option
+    and the earlier output as `--solution`.  The second output is the closure of the second inputs: what only the old
+    solution's `lib[E]` needed is gone, what the new one needs is there"""
+    name = "extra-option-with-solution"
+    quick_n = 24
+    thorough_n = 800
+    batch = 8
+    parallel_quick = 4
+
+    def setup(self):
+        self.tmp = tempfile.mkdtemp(prefix="rvc02x")
+
+    def teardown(self):
+        shutil.rmtree(getattr(self, "tmp", ""), ignore_errors=True)
+
+    def generate(self, rng):
+        return {"extra": rng.choice(["test", "docs", "x"]), "chain": rng.random() < 0.5,
+                "first_asks": rng.random() < 0.7, "second_asks": rng.random() < 0.3, "option": rng.random() < 0.85}
+
+    def impl(self, case):
+        from rv.core import digest
+        from rv.props.c09 import run_cli
+        e = case["extra"]
+        d = os.path.join(self.tmp, digest(case))
+        shutil.rmtree(d, ignore_errors=True)
+        os.makedirs(d)
+        wheels = {B.wheel_name("lib", "1.0"): B.wheel_bytes("lib", "1.0", requires=['tool ; extra == "%s"' % e], extras=[e]),
+                  B.wheel_name("tool", "1.0"): B.wheel_bytes("tool", "1.0", requires=(["deep"] if case["chain"] else [])),
+                  B.wheel_name("deep", "1.0"): B.wheel_bytes("deep", "1.0"),
+                  B.wheel_name("own", "1.0"): B.wheel_bytes("own", "1.0")}
+        B.write_findlinks(os.path.join(d, "links"), wheels)
+
+        def project(asks):
+            pd = os.path.join(d, "tree", "app")
+            os.makedirs(pd, exist_ok=True)
+            with open(os.path.join(pd, "setup.cfg"), "w") as f:
+                f.write("[metadata]\nname = app\nversion = 1.0\n\n[options]\ninstall_requires =\n    lib%s\n\n[options.extras_require]\n%s =\n    own\n"
+                        % ("[%s]" % e if asks else "", e))
+        opt = ["--extra", e] if case["option"] else []
+
+        def pins(text):
+            return sorted({GL.norm(m.group(1)) for m in re.finditer(r"^([A-Za-z0-9._-]+)(?:\[[^\]]*\])?==", text, re.M)} - {"app"})
+        GL.reset_caches()
+        project(case["first_asks"])
+        # the project directory itself is the input (`req-compile tree/app --extra test ...`)
+        first = run_cli(d, [os.path.join("tree", "app")], extra=opt)
+        out = {"first": {"code": first["code"], "pins": pins(first["stdout"])}}
+        if first["code"] == 0:
+            with open(os.path.join(d, "prior.txt"), "w") as f:
+                f.write(first["stdout"])
+            project(case["second_asks"])
+            GL.reset_caches()
+            second = run_cli(d, [os.path.join("tree", "app")], extra=["--solution", "prior.txt"] + opt)
+            out["second"] = {"code": second["code"], "exception": second["exception"], "pins": pins(second["stdout"]), "stdout": second["stdout"][-500:]}
+        shutil.rmtree(d, ignore_errors=True)
+        GL.reset_caches()
+        return out
+
+    @staticmethod
+    def _closure(case, asks):
+        want = {"lib"}
+        if case["option"]:
+            want.add("own")
+        if asks:
+            want.add("tool")
+            if case["chain"]:
+                want.add("deep")
+        return sorted(want)
+
+    def flags(self, case, r):
+        fl = ["first-exit:%s" % r["first"]["code"]]
+        if case["first_asks"] and not case["second_asks"]:
+            fl.append("extra-no-longer-asked")
+        if not case["first_asks"] and case["second_asks"]:
+            fl.append("extra-newly-asked")
+        if not case["option"]:
+            fl.append("without-the-extra-option")
+        return fl
+
+    def oracle(self, case, r):
+        fails = []
+        if r["first"]["code"] == 0 and r["first"]["pins"] != self._closure(case, case["first_asks"]):
+            fails.append(("C02/first-output-is-not-the-closure/extra-option", {"pins": r["first"]["pins"], "closure": self._closure(case, case["first_asks"])}))
+        if "second" in r:
+            if r["second"]["exception"] or r["second"]["code"] != 0:
+                fails.append(("C02/recompile-with-extra-option-and-solution-fails", r["second"]))
+            else:
+                want = self._closure(case, case["second_asks"])
+                got = r["second"]["pins"]
+                if got != want:
+                    sym = "emitted-but-not-reachable-from-inputs" if set(got) - set(want) else "input-closure-not-emitted"
+                    regime = "extra-newly-asked-of-a-solution-pin" if (case["second_asks"] and not case["first_asks"]) else \
+                        ("extra-no-longer-asked" if (case["first_asks"] and not case["second_asks"]) else "same-request")
+                    fails.append(("C02/%s/%s" % (sym, regime), {"pins": got, "closure": want, "stdout": r["second"]["stdout"]}))
+        return fails
+
+    def shrink(self, case):
+        if case["chain"]:
+            yield dict(case, chain=False)
+
+
 def streams():
-    return [SS.CompileStream("C02"), CliConstraints(), CliNestedInputs()]
+    return [SS.CompileStream("C02"), CliConstraints(), CliNestedInputs(), ExtraOptionWithSolution()]
